@@ -3161,4 +3161,64 @@ theorem equalLenOK_no_collision' (L : Nat) (is : List Inter) (kw : List (Char ×
   unfold collides
   exact (hasDup_eq_false_iff _).2 this
 
+/-! ## Part 21 (phase 6): ownership histories — caller edits of the term list / of handed-out results -/
+
+theorem ownRunFrom_code' (cfg : Cfg) (ops : List OwnOp) : ∀ s : OwnState,
+    (ownRunFrom OwnCfg.code cfg s ops).1 = (ownCalls ops).map (encode cfg s.encTerms)
+    ∧ (ownRunFrom OwnCfg.code cfg s ops).2.encTerms = s.encTerms := by
+  induction ops with
+  | nil => intro s; simp [ownRunFrom, ownCalls]
+  | cons op ops ih =>
+    intro s
+    cases op with
+    | encode kw =>
+      have h := ih { s with results := s.results ++ [encode cfg s.encTerms kw] }
+      have ht : s.termsRead OwnCfg.code = s.encTerms := rfl
+      simp only [ownRunFrom, OwnState.step, ht, ownCalls, List.map_cons]
+      exact ⟨by rw [h.1], h.2⟩
+    | editResult k o =>
+      have h := ih { s with results := s.results.set k (.ok o) }
+      simp only [ownRunFrom, OwnState.step, ownCalls]
+      exact h
+    | editTerms is =>
+      have h := ih { s with callerTerms := is }
+      simp only [ownRunFrom, OwnState.step, ownCalls]
+      exact h
+
+theorem own_history_eq_spec' (is : List Inter) (ops : List OwnOp) (hne : ∀ t ∈ strTerms is, t ≠ []) :
+    (ownRun OwnCfg.code Cfg.fixed is ops).1 = (ownCalls ops).map (fun kw => .ok (encodeS is kw))
+    ∧ (ownRun OwnCfg.code Cfg.fixed is ops).2.encTerms = is := by
+  obtain ⟨h1, h2⟩ := ownRunFrom_code' Cfg.fixed ops (OwnState.init is)
+  refine ⟨?_, h2⟩
+  unfold ownRun
+  rw [h1]
+  apply List.map_congr_left
+  intro kw _
+  exact encode_eq_spec' is kw hne
+
+theorem own_results_length' (oc : OwnCfg) (cfg : Cfg) (ops : List OwnOp) : ∀ s : OwnState,
+    (ownRunFrom oc cfg s ops).2.results.length = s.results.length + (ownCalls ops).length := by
+  induction ops with
+  | nil => intro s; simp [ownRunFrom, ownCalls]
+  | cons op ops ih =>
+    intro s
+    cases op with
+    | encode kw =>
+      simp only [ownRunFrom, OwnState.step, ownCalls, List.length_cons]
+      rw [ih]; simp; omega
+    | editResult k o =>
+      simp only [ownRunFrom, OwnState.step, ownCalls]
+      rw [ih]; simp
+    | editTerms is =>
+      simp only [ownRunFrom, OwnState.step, ownCalls]
+      rw [ih]
+
+theorem own_keep_terms_counterexample' :
+    (ownRun ⟨false⟩ Cfg.fixed [.term ['x']]
+        [.editTerms [.term ['x'], .term ['x', 'x']], .encode [('x', .dense [.num 2])]]).1
+      = [.ok (.dense [2, 4])]
+    ∧ (ownRun OwnCfg.code Cfg.fixed [.term ['x']]
+        [.editTerms [.term ['x'], .term ['x', 'x']], .encode [('x', .dense [.num 2])]]).1
+      = [.ok (.dense [2])] := by decide +kernel
+
 end Coba.C20
